@@ -398,6 +398,16 @@ class Handler(Contract):
             if isinstance(rs, dict):
                 out += self.unit_post(it, o, rs, "the out= target")
         recs = self.records(it)
+        if rs == "none" and len(recs) == 1:
+            # in-place routines return nothing: what C06 asks of them is that the implementation
+            # was called with the caller's arguments and wrote into the caller's target
+            out.append(("C06: the in-place routine called is %s" % self.numpy, recs[0].fname == self.numpy))
+            out += self.arguments_forwarded(recs[0])
+            for w in self.spec["writes"]:
+                if w in self._arrays:
+                    origin = getattr(N.arr_buf(self._arrays[w]), "origin", None)
+                    out.append(("C06: the target %s receives the implementation's result" % w,
+                                origin is not None and origin[0].fname == self.numpy))
         plain_bool = isinstance(r, bool) or (is_z3(r) and z3.is_bool(r))
         out.append(("C06: exactly one call of numpy's implementation",
                     len(recs) == 1 or (plain_bool and len(recs) == 0)))
